@@ -4,6 +4,6 @@ tier=${1:-quick}; shift
 ids=${@:-C01 C02 C03 C04 C05 C06 C07 C08 C09 C10 C11 C12 C13 C14 C15 C16 C17 C18 C19 C20}
 cd /verif
 for id in $ids; do
-  out=$(timeout 14400 ./check $id --tier $tier 2>&1); rc=$?
+  out=$(timeout 14400 ./check $id --tier $tier $EXTRA 2>&1); rc=$?
   echo "$id rc=$rc $(echo "$out" | grep -c '^VIOLATION') violations $(echo "$out" | grep -c '^KNOWN-FINDING') known :: $(echo "$out" | tail -1 | cut -c1-160)"
 done
